@@ -211,6 +211,10 @@ def oracle_point(c, p):
         logdet -= 0.5 * sum(math.log(v) for v in c["lowrank"]["vals"])
     if abs(b2f(p["logdet"]) - logdet) > 1e-9 * (1 + abs(logdet)):
         bad.append("logdet %r differs from sum ln(1/sigma) - 1/2 sum ln(lambda) = %r" % (b2f(p["logdet"]), logdet))
+    if c["kind"] != "microcanonical":
+        kin = 0.5 * sum(b2f(b) ** 2 for b in p["v"])
+        if abs(b2f(p["kinetic"]) - kin) > 1e-9 * (1 + kin):
+            bad.append("stored kinetic energy %r is not 1/2 |v|^2 = %r of the stored velocity (%s)" % (b2f(p["kinetic"]), kin, c["kind"]))
     e = b2f(p["kinetic"]) - (b2f(p["logp"]) + b2f(p["logdet"]))
     if abs(b2f(p["energy"]) - e) > 1e-9 * (1 + abs(e)):
         bad.append("energy %r is not kinetic - (logp + logdet) = %r" % (b2f(p["energy"]), e))
